@@ -49,15 +49,18 @@ Record cfg := {
   fix_excl : bool;    (* exclude honoured inside copytree (left-only directories, cloned jobs) *)
   fix_dryinit : bool; (* dry run into an uninitialised destination job does not list it        *)
   fix_ignore : bool;  (* dircmp(..., ignore=[]): names of filecmp.DEFAULT_IGNORES are synchronised *)
-  fix_implicit : bool (* the two implicit exclude patterns are escaped and anchored              *)
+  fix_implicit : bool;(* the two implicit exclude patterns are escaped and anchored              *)
+  fix_shared : bool   (* ByKey keeps its skipped keys per call (thread pool) and clear() is gated   *)
 }.
 
 Definition cfg_current : cfg :=
   {| fix_F3 := false; fix_F4 := false; fix_F5 := false; fix_F16 := false; fix_root := false;
-     fix_excl := false; fix_dryinit := false; fix_ignore := false; fix_implicit := false |}.
+     fix_excl := false; fix_dryinit := false; fix_ignore := false; fix_implicit := false;
+     fix_shared := false |}.
 Definition cfg_fixed : cfg :=
   {| fix_F3 := true; fix_F4 := true; fix_F5 := true; fix_F16 := true; fix_root := true;
-     fix_excl := true; fix_dryinit := true; fix_ignore := true; fix_implicit := true |}.
+     fix_excl := true; fix_dryinit := true; fix_ignore := true; fix_implicit := true;
+     fix_shared := true |}.
 
 (* ------------------------------------------------------------------ options *)
 Inductive fstrategy :=
@@ -432,6 +435,36 @@ Section Model.
   (* `if src.document != dst.document: with proxy.create_doc_backup(dst.document) as p: doc_sync(src.document, p)` *)
   Definition backup_name (fn : str) : str := fn ++ [TILDE].
 
+  (* the part of create_doc_backup / create_backup around the document function: given the destination
+     document before (ddoc), what the document function made of it (d') and how it ended (e) *)
+  Definition doc_finish (dry : bool) (fn : str) (ddir : dir) (ddoc d' : kvs) (e : option exn) : wstate :=
+    (* every assignment through the synced dict rewrites the file *)
+    let put (base : dir) : dir := if kvs_eqb d' ddoc then base else write_doc fn d' base in
+    match ddoc, alookup fn ddir with
+    | _ :: _, Some (File c mt) =>
+        (* create_backup(fn): refuse if fn~ exists; _copy2(fn, fn~); on any exception _copy2(fn~, fn);
+           finally _remove(fn~) — all three gated by dry_run *)
+        match alookup (backup_name fn) ddir with
+        | Some (File _ _) => (ddir, Some ERuntimeError)
+        | Some (Dir _) => (ddir, Some EOther)                 (* not modelled *)
+        | None =>
+            if dry then (put ddir, e)
+            else
+              let worked := put (ddir ++ [(backup_name fn, File c mt)]) in
+              match e with
+              | None => (aremove (backup_name fn) worked, None)
+              | Some x => (aremove (backup_name fn) (aset fn (File c mt) worked), Some x)
+              end
+        end
+    | _, _ =>
+        (* `not len(proxy)` or no file: in-memory backup.  roll-back = proxy.clear() (NOT gated by
+           dry_run) followed by proxy.update(backup) (gated) *)
+        match e with
+        | None => (put ddir, None)
+        | Some x => (write_doc fn (if dry then [] else ddoc) ddir, Some x)
+        end
+    end.
+
   Definition sync_doc (o : opts) (fn : str) (sdir ddir : dir) : wstate :=
     match o_docsync o with
     | DS_nosync | DS_copy => (ddir, None)
@@ -442,32 +475,7 @@ Section Model.
         if py_eq (JObj sdoc) (JObj ddoc) then (ddir, None)
         else
           let '(d', e) := apply_docsync ds sdoc ddoc dry in
-          (* every assignment through the synced dict rewrites the file *)
-          let put (base : dir) : dir := if kvs_eqb d' ddoc then base else write_doc fn d' base in
-          match ddoc, alookup fn ddir with
-          | _ :: _, Some (File c mt) =>
-              (* create_backup(fn): refuse if fn~ exists; _copy2(fn, fn~); on any exception _copy2(fn~, fn);
-                 finally _remove(fn~) — all three gated by dry_run *)
-              match alookup (backup_name fn) ddir with
-              | Some (File _ _) => (ddir, Some ERuntimeError)
-              | Some (Dir _) => (ddir, Some EOther)                 (* not modelled *)
-              | None =>
-                  if dry then (put ddir, e)
-                  else
-                    let worked := put (ddir ++ [(backup_name fn, File c mt)]) in
-                    match e with
-                    | None => (aremove (backup_name fn) worked, None)
-                    | Some x => (aremove (backup_name fn) (aset fn (File c mt) worked), Some x)
-                    end
-              end
-          | _, _ =>
-              (* `not len(proxy)` or no file: in-memory backup.  roll-back = proxy.clear() (NOT gated by
-                 dry_run) followed by proxy.update(backup) (gated) *)
-              match e with
-              | None => (put ddir, None)
-              | Some x => (write_doc fn (if dry then [] else ddoc) ddir, Some x)
-              end
-          end
+          doc_finish dry fn ddir ddoc d' e
     end.
 
   (* ---------------------------------------------------------------- sync_jobs *)
@@ -536,6 +544,36 @@ Section Model.
   (* [all]: with parallel=True/int the jobs after a failing one may or may not have been processed when
      the exception surfaces; all=false is the sequential loop (and the lower bound of what a pool does),
      all=true the upper bound *)
+  (* ---------------------------------------------------------------- thread pool: shared ByKey state
+     With parallel=True/int all worker threads use ONE ByKey instance, hence one skipped_keys set.  A job whose
+     ByKey loop runs after another thread recorded a conflict raises DocumentSyncConflict at the end of its own
+     (conflict-free) merge; create_doc_backup then rolls back — through the un-gated proxy.clear() when the
+     destination document was empty.  This is the outcome of such a job. *)
+  Definition sync_doc_spurious (o : opts) (fn : str) (sdir ddir : dir) : wstate :=
+    match o_docsync o with
+    | DS_bykey None =>
+        let sdoc := read_doc fn sdir in
+        let ddoc := read_doc fn ddir in
+        let dry := o_dry_run o in
+        if py_eq (JObj sdoc) (JObj ddoc) then (ddir, None)
+        else
+          let '(d', e) := apply_docsync (DS_bykey None) sdoc ddoc dry in
+          doc_finish dry fn ddir ddoc d' (match e with None => Some EDocumentSyncConflict | x => x end)
+    | _ => sync_doc o fn sdir ddir
+    end.
+
+  Definition clone_or_sync_spurious (o : opts) (kn : str * node) (ws : dir) : wstate :=
+    let '(id, n) := kn in
+    match n, alookup id ws with
+    | Dir sdir, Some (Dir ddir) =>
+        let '(d1, e1) := sync_ws (S (depth (Dir sdir))) o (proj_deep o) sdir ddir [] in
+        match e1 with
+        | Some _ => (aset id (Dir d1) ws, e1)
+        | None => let '(d2, e2) := sync_doc_spurious o FN_DOC sdir d1 in (aset id (Dir d2) ws, e2)
+        end
+    | _, _ => clone_or_sync o kn ws
+    end.
+
   Definition sync_projects_m (all : bool) (o : opts) (src dst : project) : project * option exn :=
     if schema_conflict o src dst then (dst, Some ESchemaSyncConflict)
     else
